@@ -145,6 +145,47 @@ def one_grammar(spec, R, batch, stats, quick):
                         pool.append(rep.mutate(rs, pool[R.randrange(len(pool))]))
                     except Exception:
                         pass
+        # the mutation STEP (what a GP run applies): output i is a mutation of input i - at most one gene apart
+        from geneticengine.algorithms.gp.operators.mutation import GenericMutationStep
+        from geneticengine.evaluation.sequential import SequentialEvaluator
+        from geneticengine.problems import SingleObjectiveProblem
+        from geneticengine.solutions.individual import Individual
+        prob = SingleObjectiveProblem(lambda p: 0.0)
+        for rname, kind, rep in reps:
+            if kind == "tree":
+                continue
+            gts = []
+            for _ in range(4):
+                try:
+                    with time_limit(10):
+                        gt = rep.create_genotype(rs)
+                        if rname == "dsge":
+                            rep.genotype_to_phenotype(gt)
+                    gts.append(gt)
+                except Exception:
+                    pass
+            for rnd in range(3 if quick else 10):
+                inds = [Individual(gt, rep) for gt in gts]
+                snaps = [snapshot(kind, gt) for gt in gts]
+                try:
+                    with time_limit(20):
+                        out = list(GenericMutationStep(1.0).apply(prob, SequentialEvaluator(), rep, rs, inds, len(inds), rnd + 1))
+                except Exception:
+                    break
+                for sp, o in zip(snaps, out):
+                    if kind == "linear":
+                        e1, e2 = lin_event("mut", rname, [sp, list(o.genotype.dna)])
+                        evs.append({"e": "mut", "rep": rname, "kind": "linear", "g": e1, "m": e2})
+                    else:
+                        e1, e2 = struct_encode([sp, dict(o.genotype.dna)])
+                        evs.append({"e": "mut", "rep": rname, "kind": "struct", "g": e1, "m": e2})
+                gts = [o.genotype for o in out]
+                if rname == "dsge":
+                    for gt in gts:
+                        try:
+                            rep.genotype_to_phenotype(gt)
+                        except Exception:
+                            pass
         batch.trace(spec["id"], evs, {"k": "c06", "g": decl})
         stats["events"] += len(evs)
     finally:
